@@ -34,6 +34,9 @@ import (
 type verifDelFile struct {
 	Path      string `json:"path"`       // relative to the storage root
 	CreateSQL string `json:"create_sql"` // SELECT producing the rows, in order
+	// read-back projection of THIS file (files of one measurement may have different schemas:
+	// a column can have another numeric type or be absent); empty = the case's select_list
+	SelectList string `json:"select_list"`
 }
 
 type verifDelCase struct {
@@ -68,6 +71,7 @@ type verifDelObs struct {
 	ID         int                 `json:"id"`
 	Before     []verifDelRows      `json:"before"`
 	Verdicts   map[string][]string `json:"verdicts"` // path -> "T"/"F"/"U" per row
+	Unbound    []string            `json:"unbound"`  // files against which the WHERE does not bind when read alone (verdict taken from the union_by_name read)
 	VerdictErr string              `json:"verdict_err"`
 	Dry        verifDelResp        `json:"dry"`
 	DryBytesOK bool                `json:"dry_bytes_unchanged"` // every data file byte-identical after the dry run
@@ -135,10 +139,14 @@ func verifListParquet(t *testing.T, root, rel string) []string {
 	return out
 }
 
-func verifReadAll(t *testing.T, ctx context.Context, db *sql.DB, root string, paths []string, sel string) []verifDelRows {
+func verifReadAll(t *testing.T, ctx context.Context, db *sql.DB, root string, paths []string, sel string, perFile map[string]string) []verifDelRows {
 	out := []verifDelRows{}
 	for _, p := range paths {
-		rows, err := verifQueryRows(ctx, db, fmt.Sprintf("SELECT %s FROM read_parquet('%s')", sel, filepath.Join(root, p)))
+		fsel := sel
+		if s, ok := perFile[p]; ok && s != "" {
+			fsel = s
+		}
+		rows, err := verifQueryRows(ctx, db, fmt.Sprintf("SELECT %s FROM read_parquet('%s')", fsel, filepath.Join(root, p)))
 		if err != nil {
 			t.Fatalf("read back %s: %v", p, err)
 		}
@@ -226,38 +234,74 @@ func TestVerifDelete(t *testing.T) {
 
 		// one read per file: the rows as stored AND DuckDB's own verdict SELECT (<where>) on every row
 		// (the oracle the Kleene evaluator is compared with); a WHERE DuckDB refuses falls back to the rows only
+		perFile := map[string]string{}
+		for _, f := range c.Files {
+			perFile[f.Path] = f.SelectList
+		}
+		selOf := func(p string) string {
+			if s, ok := perFile[p]; ok && s != "" {
+				return s
+			}
+			return c.SelectList
+		}
+		var allList strings.Builder
+		for i, p := range paths {
+			if i > 0 {
+				allList.WriteString(", ")
+			}
+			allList.WriteString("'" + filepath.Join(root, p) + "'")
+		}
+		verdictOf := func(r []interface{}) string {
+			switch v := r[len(r)-1].(type) {
+			case nil:
+				return "U"
+			case bool:
+				if v {
+					return "T"
+				}
+				return "F"
+			default:
+				return fmt.Sprintf("?%v", v)
+			}
+		}
 		for _, p := range paths {
 			full := filepath.Join(root, p)
-			rows, err := verifQueryRows(ctx, db, fmt.Sprintf("SELECT %s, (%s) AS verif_verdict FROM read_parquet('%s')", c.SelectList, c.Where, full))
-			if err != nil || strings.TrimSpace(c.Where) == "" {
-				if err != nil {
-					o.VerdictErr = err.Error()
-				} else {
-					o.VerdictErr = "empty where"
-				}
-				o.Before = verifReadAll(t, ctx, db, root, paths, c.SelectList)
-				o.Verdicts = map[string][]string{}
+			if strings.TrimSpace(c.Where) == "" {
+				o.VerdictErr = "empty where"
 				break
 			}
-			vs := make([]string, 0, len(rows))
-			plain := make([][]interface{}, 0, len(rows))
-			for _, r := range rows {
-				switch v := r[len(r)-1].(type) {
-				case nil:
-					vs = append(vs, "U")
-				case bool:
-					if v {
-						vs = append(vs, "T")
-					} else {
-						vs = append(vs, "F")
-					}
-				default:
-					vs = append(vs, fmt.Sprintf("?%v", v))
+			rows, err := verifQueryRows(ctx, db, fmt.Sprintf("SELECT %s, (%s) AS verif_verdict FROM read_parquet('%s')", selOf(p), c.Where, full))
+			if err == nil {
+				vs := make([]string, 0, len(rows))
+				plain := make([][]interface{}, 0, len(rows))
+				for _, r := range rows {
+					vs = append(vs, verdictOf(r))
+					plain = append(plain, r[:len(r)-1])
 				}
-				plain = append(plain, r[:len(r)-1])
+				o.Verdicts[p] = vs
+				o.Before = append(o.Before, verifDelRows{Path: p, Rows: plain})
+				continue
+			}
+			// read alone the WHERE does not bind (a column it names is absent from this file): the
+			// verdict is the one of the union_by_name read over all files of the measurement
+			urows, uerr := verifQueryRows(ctx, db, fmt.Sprintf(
+				"SELECT (%s) AS verif_verdict FROM read_parquet([%s], union_by_name=true, filename=true) WHERE filename = '%s'", c.Where, allList.String(), full))
+			if uerr != nil {
+				o.VerdictErr = err.Error()
+				break
+			}
+			vs := make([]string, 0, len(urows))
+			for _, r := range urows {
+				vs = append(vs, verdictOf(r))
 			}
 			o.Verdicts[p] = vs
-			o.Before = append(o.Before, verifDelRows{Path: p, Rows: plain})
+			o.Unbound = append(o.Unbound, p)
+			o.Before = append(o.Before, verifReadAll(t, ctx, db, root, []string{p}, c.SelectList, perFile)...)
+		}
+		if o.VerdictErr != "" {
+			o.Before = verifReadAll(t, ctx, db, root, paths, c.SelectList, perFile)
+			o.Verdicts = map[string][]string{}
+			o.Unbound = nil
 		}
 		if o.Before == nil {
 			o.Before = []verifDelRows{}
@@ -273,12 +317,12 @@ func TestVerifDelete(t *testing.T) {
 		o.Dry = verifPost(t, app, body)
 		o.DryBytesOK = verifHashFiles(root, dataFiles) == dataBefore && strings.Join(verifListParquet(t, root, measRel), "|") == strings.Join(paths, "|")
 		if !o.DryBytesOK {
-			o.DryFiles = verifReadAll(t, ctx, db, root, verifListParquet(t, root, measRel), c.SelectList)
+			o.DryFiles = verifReadAll(t, ctx, db, root, verifListParquet(t, root, measRel), c.SelectList, perFile)
 		}
 
 		body["dry_run"] = false
 		o.Real = verifPost(t, app, body)
-		o.After = verifReadAll(t, ctx, db, root, verifListParquet(t, root, measRel), c.SelectList)
+		o.After = verifReadAll(t, ctx, db, root, verifListParquet(t, root, measRel), c.SelectList, perFile)
 		o.SiblingOK = verifHashFiles(root, c.Sibling) == sibBefore
 
 		_ = filepath.WalkDir(filepath.Join(root, measRel), func(p string, d fs.DirEntry, err error) error {
